@@ -131,7 +131,7 @@ pub fn etrade_record(case: &Value, n: u64, scratch: &Path) -> Value {
         let shares = Decimal::from(t["shares"].as_i64().unwrap());
         let price = rat(&t["price"]);
         let (commission, fee) = if sec == "BAR" { (Decimal::ZERO, Decimal::ZERO) } else { (Decimal::new(495, 2), Decimal::new(5, 2)) };
-        let name = format!("m_trade_{}.txt", if order == 0 { i } else { 9 - i });
+        let name = format!("m_trade_{:02}.txt", if order == 0 { i } else { 99 - i });
         // in the pre-2023 layout the COMMISSION entry and the FEE line are each optional
         let charges = if layout == 0 { 0 } else { (n + i as u64) % 3 };
         let (commission, fee) = match charges {
